@@ -195,6 +195,18 @@ def Reachable (s : State) : Prop := ∃ as, run idOf nConn init as = some s
 
 end
 
+/-! ### deadline of a call
+
+`Request` starts with `ctx, cancel := context.WithTimeout(ctx, c.timeout)`: the derived context expires at the EARLIER of
+the caller's own deadline (if it has one) and `start + timeout`; a cancellation by the caller counts as a deadline at
+the moment of cancelling. The untimed transition system lets `timeout k` fire at any moment; `effectiveDeadline` is the
+moment it fires in the code. -/
+
+def effectiveDeadline (start timeout : Nat) (caller : Option Nat) : Nat :=
+  match caller with
+  | none => start + timeout
+  | some d => min (start + timeout) d
+
 /-! ### history validation (executable)
 
 The harness records the EXTERNAL history of a scenario in the order it observed the events; `checkHistory` replays it
@@ -260,19 +272,22 @@ def advanceToSend (idOf : Nat → Id) (nConn : Nat) (ck : Check) (k c : Nat) : C
   let ck := applyAct idOf nConn ck (.send k) s!"send {k}"
   { ck with sent := k :: ck.sent }
 
-/-- the history's next sign of life of connection c is a new handshake (not a query read from it, not a drop): the
-client side gave the connection up before the server did — what a (stale or regular) reconnect looks like from outside -/
-def nextIsAccept (rest : List Event) (c : Nat) : Bool :=
-  match rest.find? (fun e => match e with
-      | .accepted c' => c' == c | .query _ c' => c' == c | .drop c' => c' == c | _ => false) with
-  | some (.accepted _) => true
-  | _ => false
+/-- how far ahead the history shows a new handshake on connection c (`none` = never): the connection whose next
+handshake comes first is the one the client gave up first — what a (stale or regular) reconnect looks like from outside -/
+def nextAccept (rest : List Event) (c : Nat) : Option Nat :=
+  let i := rest.findIdx fun e => match e with | .accepted c' => c' == c | _ => false
+  if i < rest.length then some i else none
 
-/-- among the connections satisfying `p`, preferably one whose next sign of life is a new handshake -/
+/-- among the connections satisfying `p`, the one whose next handshake in the history comes first (if any has one) -/
 def chooseConn (nConn : Nat) (rest : List Event) (p : Nat → Bool) : Option Nat :=
-  match (List.range nConn).find? fun c => p c && nextIsAccept rest c with
-  | some c => some c
-  | none => (List.range nConn).find? p
+  let cands := (List.range nConn).filter p
+  let withAcc := cands.filterMap fun c => (nextAccept rest c).map fun i => (i, c)
+  match withAcc.foldl (fun (best : Option (Nat × Nat)) ic =>
+      match best with
+      | none => some ic
+      | some b => if ic.1 < b.1 then some ic else some b) none with
+  | some (_, c) => some c
+  | none => cands.head?
 
 /-- some connection on which a send would fail now: preferably one that already refuses sends (not Connected or
 dead socket) — using a connection the peer merely closed commits its socket to being dead from now on; as a last
